@@ -30,7 +30,7 @@ def run_lru(c):
         out.append([r, [k in cache for k in LRU_KEYS]])
     return out
 
-CURRENT_VARIANTS = [1, 0, 0]
+CURRENT_VARIANTS = [1, 0, 0, 0]
 
 
 # ----------------------------------------------------------------------------- histories
@@ -442,6 +442,11 @@ class C12(Check):
                ("get", "s1"), ("delete", "l20.yaml"), ("get", "s1"), ("edit", "l20.yaml", "w: 1\n"), ("get", "s1")]
         for cs in (1, 64):
             yield {"base": chain, "ops": ops, "cache_size": cs, "engine": False, "ml": False, "ms": True, "allow_empty": False}
+        # D25: a data file called like the marker that starts the list of parent files is an ordinary file
+        tf = {"top.yaml": "'*': ['top file', b]\n", "top file.yaml": "t: 1\n", "b.yaml": "m: 1\ninclude: ['top file']\n"}
+        yield {"base": tf, "ops": [("get", "s1"), ("edit", "top file.yaml", "t: 2\n"), ("get", "s1"),
+                                   ("edit", "top file.yaml", "t: 3\ninclude: [b]\n"), ("get", "s1"), ("edit", "top file.yaml", "t: 4\n"), ("get", "s1")],
+               "cache_size": 64, "engine": False, "ml": False, "ms": True, "allow_empty": False}
         for base, ops in race_histories():
             for engine in (True, False):
                 if (base is BASE_T) != engine:
